@@ -144,11 +144,14 @@ def run(ctx: Context) -> None:
     ctx.rule('R01.5', "wind_index substitutes the default kind only when the argument is None", floor=1)
     ctx.rule('R01.6', "each grid kind is bound to its own dimensions", floor=4)
     ctx.rule('R01.7', "calls between repository functions in the anchored files pass positional arguments to the parameters of the same name (no swapped latitude/longitude, kind/index ...)", floor=20)
+    ctx.rule('R01.8', "the dimensions of each mesh grid kind are discovered from the mesh attributes with the documented precedence (shared with C10 R10.5)", floor=5)
     ctx.assume("numpy.ravel_multi_index / unravel_index with equal shape, order='C', mode='raise' are mutually inverse on [0, prod(shape)) and raise outside it")
     ctx.assume("xarray Dataset.sizes reports the dimension lengths of the file")
 
-    from .common import swapped_argument_obligations
+    from .common import share_obligations, swapped_argument_obligations
     swapped_argument_obligations(ctx, 'R01.7')
+    from . import c10
+    share_obligations(ctx, c10, {'R10.5'}, 'R01.8')
     concrete = [c for c in p.concrete_classes(base)]
     ctx.require(len(concrete) >= 5, f"expected >= 5 concrete DimensionConvention classes, found {len(concrete)}")
 
